@@ -16,8 +16,18 @@ macro_rules! widths {
             6 => $f::<6>($($args),*),
             7 => $f::<7>($($args),*),
             8 => $f::<8>($($args),*),
+            9 => $f::<9>($($args),*),
+            12 => $f::<12>($($args),*),
+            13 => $f::<13>($($args),*),
+            14 => $f::<14>($($args),*),
             16 => $f::<16>($($args),*),
+            24 => $f::<24>($($args),*),
+            28 => $f::<28>($($args),*),
             32 => $f::<32>($($args),*),
+            48 => $f::<48>($($args),*),
+            56 => $f::<56>($($args),*),
+            64 => $f::<64>($($args),*),
+            96 => $f::<96>($($args),*),
             128 => $f::<128>($($args),*),
             _ => Some("unsupported-width".to_string()),
         }
